@@ -30,10 +30,10 @@ package controller
 //   * a request whose tokens all have a dictated outcome is forwarded (not silently dropped);
 //   * other headers, other query parameters and the other body content are preserved.
 // Accepted both ways (statement silent): whether a request fails instead of forwarding an
-// already-salted / 40-char / unknown token; which of several tokens is forwarded; what happens
-// to the arvados_api_token COOKIE (it is base64, the parenthesis of the statement lists header,
-// query and form body only) -- a cookie that still carries the unsalted token is counted as an
-// outcome and noted, not flagged.
+// already-salted / 40-char / unknown token; which of several tokens is forwarded.
+// The arvados_api_token COOKIE is one of the placements the quantifier lists and the Cookie header
+// is part of the forwarded request: a forwarded cookie that still carries (base64 of) the unsalted
+// token is a violation (it was one on the pinned tree; repaired by fix: 4a68619).
 
 import (
 	"context"
@@ -579,8 +579,10 @@ func (e *c19env) run(c c19case) {
 		oc += "Authorization carries " + cls
 	}
 	if cookieStill {
-		oc += " + cookie still carries the unsalted token (statement silent)"
-		r.Note("observation, not flagged: when a token that must be salted arrives in the arvados_api_token cookie, saltAuthToken forwards the Cookie header unchanged (base64 of the unsalted token) next to the salted Authorization header")
+		// the forwarded request includes its Cookie header, and the quantifier lists the cookie among
+		// the token placements: the base64 of the unsalted token must not travel to the remote
+		oc += " + cookie still carries the unsalted token"
+		r.Violation("legacy:unsalted-secret-in-forwarded-cookie", descr+"\nthe arvados_api_token cookie of the forwarded request still carries (base64 of) the unsalted token next to the salted Authorization header", c)
 	}
 	if panicked != nil {
 		oc += " then panic"
